@@ -17,6 +17,7 @@ from fractions import Fraction
 from urllib.error import HTTPError, URLError
 from urllib.parse import quote as _quote
 
+import common
 from common import coq_str, coq_list, coq_opt, coq_bool, coq_Z, coq_eval_shards
 
 SITE_URL = "https://contoso.sharepoint.com/sites/verif"
@@ -190,6 +191,30 @@ def dt_exact(d):
     return Fraction(us - off, 10 ** 6)
 
 
+def near_miss_names(ext):
+    """names that almost / barely (do not) end with the extension: the suffix test is literal, case-insensitive"""
+    letters = ext.lstrip(".")
+    out = [letters, "x" + letters, "scan_" + letters, "scan-" + letters, ext, "a" + ext, "a" + ext + "x", "a" + ext.upper(),
+           "a" + ext.swapcase(), "a" + ext.replace(".", "_"), "a" + ext.replace(".", ","), "a." + letters[:-1], "a." + letters + ".bak",
+           ext + ext, "b" + ext[1:] if len(ext) > 1 else "b", "\n" + letters, "a\n" + ext]
+    return [x for x in out if x and "/" not in x]
+
+
+def plant_near_misses(rng, tree, exts):
+    """rename some files so that the library contains near misses of the filter's extensions"""
+    files = []
+
+    def coll(t):
+        for n in t:
+            if n["t"] == "file":
+                files.append(n)
+            elif n["t"] == "folder":
+                coll(n["ch"])
+    coll(tree)
+    for n in rng.sample(files, min(len(files), rng.randint(1, 4))):
+        n["name"] = rng.choice(near_miss_names(rng.choice(exts)))
+
+
 def gen_filter(rng, tree, kind):
     stamps = []
 
@@ -242,7 +267,11 @@ def gen_filter(rng, tree, kind):
             if rng.random() < (0.45 if kind != "mixed" else 0.25):
                 f[k] = bound()
     if kind in ("ext", "mixed") and rng.random() < 0.8:
-        f["extensions"] = rng.sample([".pdf", ".PDF", ".Txt", ".docx", "", "df", ".xlsx", "i.txt", ".md"], rng.randint(1, 3))
+        f["extensions"] = rng.sample([".pdf", ".PDF", ".Txt", ".docx", "", "df", ".xlsx", "i.txt", ".md", ".a", ".tar.gz", ".gz",
+                                      ".c++", "(1).pdf", ".p?f", ".[x]", "_pdf", ".t*t", ".d|f", "$", "\\.pdf"], rng.randint(1, 3))
+        real = [e for e in f["extensions"] if e]
+        if real and rng.random() < 0.8:
+            plant_near_misses(rng, tree, real)
     if kind in ("pat", "mixed") and rng.random() < 0.8:
         f["path_patterns"] = rng.sample(["*.pdf", "*.PDF", "Docs/*", "*/*", "*/Sub/*", "[a-c]*", "?", "*b c*", "Docs/*.txt",
                                          "*.d/*", "*", "a", "*/*/*", "*[!f]", "Docs*", "*\u00ef.pdf"], rng.randint(1, 3))
@@ -299,6 +328,7 @@ def gen_qcase(rng, ids, sysfields, pool):
                                         rng.randint(1, 2))
     elif r < 0.6:
         f["extensions"] = rng.sample([".pdf", ".TXT", ".docx"], 2)
+        plant_near_misses(rng, tree, f["extensions"])
     return tree, f
 
 
@@ -945,6 +975,7 @@ def run(ctx):
     rec = Recorder()
     real_fn, real_dt = client_mod.fnmatch, client_mod.datetime
     cases_coq, cases_info = [], []
+    env_cases = []
     norm_inputs = set()
     try:
         n_random = ctx.n(160, 800)
@@ -975,6 +1006,9 @@ def run(ctx):
             bits = rng.getrandbits(16)
             healthy = run_impl(client_mod, table, token_url, flt, drive, [], bits)
             case = {"tree": tree, "paging": paging, "filter": flt, "drive": drive, "sysfields": sysfields}
+            if len(env_cases) < ctx.n(120, 300) and (mode != "random" or idx % 2 == 0):
+                env_cases.append({"tree": tree, "paging": paging, "fin": sorted(map(str, fin)), "_fin": fin, "filter": flt,
+                                  "drive": drive, "faults": [], "bits": bits})
             expected = ref_listing(tree, flt, sysfields) if unique_names(tree) or not (flt and flt["folder_paths"]) else None
             observations = [healthy]
             judge(ctx, case, healthy, None, expected)
@@ -993,6 +1027,9 @@ def run(ctx):
                 sc = list({k: f for k, f in sc}.items())
                 o = run_impl(client_mod, table, token_url, flt, drive, sc, bits)
                 observations.append(o)
+                if len(env_cases) < ctx.n(120, 300) and rng.random() < 0.1:
+                    env_cases.append({"tree": tree, "paging": paging, "fin": sorted(map(str, fin)), "_fin": fin, "filter": flt,
+                                      "drive": drive, "faults": sc, "bits": bits})
                 judge(ctx, case, o, healthy, expected)
             client_mod.fnmatch, client_mod.datetime = real_fn, real_dt
             nfolders = sum(1 for _ in folders_of_tree(tree))
@@ -1026,6 +1063,16 @@ def run(ctx):
             stamps_in(tree)
     finally:
         client_mod.fnmatch, client_mod.datetime = real_fn, real_dt
+
+    # environment dimension: the same (library, paging, filter, fault script) under DEBUG logging, in a worker thread,
+    # under other time zones and another cwd must give the same result, request log, close counts, caches and retry
+    def env_fn(c):
+        t = build_table(base, site_api, SITE, c["drive"], c["tree"], c["paging"], c["_fin"])
+        o = run_impl(client_mod, t, token_url, c["filter"], c["drive"], c["faults"], c["bits"])
+        return (o["result"], o["log"], o["opened"], o["closed"], o["tok"], o["sid"], o["retry"])
+    common.env_sweep(ctx, "listing", env_fn, env_cases,
+                     describe=lambda c: repr({"filter": c["filter"], "faults": c["faults"], "drive": c["drive"],
+                                              "nodes": tree_size(c["tree"])}))
 
     pre = ("From Coq Require Import ZArith List.\nFrom S2T Require Import Lib.PyStr C18.Model C18.Corr Gen.C18Tables.\n"
            "Import ListNotations.\n")
